@@ -947,6 +947,51 @@ func (fx *FnExec) globalPtr(g *ssa.Global) Val {
 
 func (fx *FnExec) prepareCFG() []*ssa.BasicBlock {
 	fn := fx.Fn
+	fx.prepareLoopsOnly()
+	heads := fx.loopsInOrder()
+	for i, li := range heads {
+		li.ordinal = i + 1
+	}
+	// contracts number the loops of the tree they were written against; when the loops of this
+	// function have since been reordered (an if/else flipped, a block moved), the ordinals follow
+	// the loops, not the positions (loopsigs.go)
+	if perm := loopRemap(displayName(fn), fn, heads); perm != nil {
+		for i, li := range heads {
+			if perm[i] != i {
+				fx.notes = append(fx.notes, fmt.Sprintf("loop-reordered:%d->%d", i+1, perm[i]+1))
+			}
+			li.ordinal = perm[i] + 1
+		}
+	}
+	// topological order ignoring back edges (reverse postorder)
+	var order []*ssa.BasicBlock
+	seen := map[int]bool{}
+	var dfs func(b *ssa.BasicBlock)
+	dfs = func(b *ssa.BasicBlock) {
+		seen[b.Index] = true
+		for _, s := range b.Succs {
+			if fx.backEdge[[2]int{b.Index, s.Index}] || seen[s.Index] {
+				continue
+			}
+			dfs(s)
+		}
+		order = append(order, b)
+	}
+	if len(fn.Blocks) > 0 {
+		dfs(fn.Blocks[0])
+	}
+	if fn.Recover != nil && !seen[fn.Recover.Index] {
+		// recover block not modelled
+	}
+	for i, j := 0, len(order)-1; i < j; i, j = i+1, j-1 {
+		order[i], order[j] = order[j], order[i]
+	}
+	return order
+}
+
+// prepareLoopsOnly: back edges and natural loops.
+func (fx *FnExec) prepareLoopsOnly() {
+	fn := fx.Fn
 	fx.backEdge = map[[2]int]bool{}
 	fx.loopHead = map[int]*loopInfo{}
 	// back edges: target dominates source
@@ -973,7 +1018,10 @@ func (fx *FnExec) prepareCFG() []*ssa.BasicBlock {
 			}
 		}
 	}
-	// loop ordinals in source order of the head block's first position
+}
+
+// loopsInOrder: loops in source order of the head block's first position.
+func (fx *FnExec) loopsInOrder() []*loopInfo {
 	var heads []*loopInfo
 	for _, li := range fx.loopHead {
 		heads = append(heads, li)
@@ -985,33 +1033,7 @@ func (fx *FnExec) prepareCFG() []*ssa.BasicBlock {
 		}
 		return heads[i].head.Index < heads[j].head.Index
 	})
-	for i, li := range heads {
-		li.ordinal = i + 1
-	}
-	// topological order ignoring back edges (reverse postorder)
-	var order []*ssa.BasicBlock
-	seen := map[int]bool{}
-	var dfs func(b *ssa.BasicBlock)
-	dfs = func(b *ssa.BasicBlock) {
-		seen[b.Index] = true
-		for _, s := range b.Succs {
-			if fx.backEdge[[2]int{b.Index, s.Index}] || seen[s.Index] {
-				continue
-			}
-			dfs(s)
-		}
-		order = append(order, b)
-	}
-	if len(fn.Blocks) > 0 {
-		dfs(fn.Blocks[0])
-	}
-	if fn.Recover != nil && !seen[fn.Recover.Index] {
-		// recover block not modelled
-	}
-	for i, j := 0, len(order)-1; i < j; i, j = i+1, j-1 {
-		order[i], order[j] = order[j], order[i]
-	}
-	return order
+	return heads
 }
 
 // loopPos: source position of a loop: the smallest position in its head block, or, when the head
